@@ -24,7 +24,7 @@ pub trait Encoder {
             *final(final(dst).buf) == *final(old(dst).buf),
             final(dst).buf.reserve_bound == old(dst).buf.reserve_bound;
     // A-codec-04: Encoder::buffer_settings has no side effect
-    fn buffer_settings(&self) -> BufferSettings;
+    fn buffer_settings(&self) -> (r: BufferSettings) ensures sane(r);
 }
 
 pub trait Stream { type Item; }
@@ -198,7 +198,7 @@ def build():
     u.prelude('base.rs', 'wire.rs', 'bytes.rs')
     u.item('tonic/src/status.rs', 'enum', 'Code', derives='Clone, Copy, PartialEq, Eq')
     u.item('tonic/src/codec/compression.rs', 'enum', 'CompressionEncoding', derives='Clone, Copy, PartialEq, Eq')
-    u.prelude('codec.rs')
+    u.prelude('codec_specs.rs', 'codec.rs')
     u.const_guard('tonic/src/codec/mod.rs', 'HEADER_SIZE', 'const HEADER_SIZE: usize = std::mem::size_of::<u8>() + std::mem::size_of::<u32>();', 'pub const HEADER_SIZE: usize = 5;')
     u.item('tonic/src/codec/mod.rs', 'const', 'DEFAULT_MAX_SEND_MESSAGE_SIZE')
     u.raw(SHIMS)
@@ -220,7 +220,7 @@ def build():
                    2: dict(params='err: Status', ret='(x: Status)', ensures=['x.code == Code::Internal'])},
          hints=[('before', 'finish_encoding(compression_encoding, max_message_size',
                  'proof { let payload = match compression_encoding { Some(e) => compress_spec(e, T::ser(item)), None => T::ser(item) }; assert(buf@.take(offset as int) =~= old(buf)@); assert(buf@.skip(offset as int).skip(5) =~= payload); }')],
-         requires=['old(buf).reserve_bound@ < 0'],
+         requires=['old(buf).reserve_bound@ < 0', 'sane(buffer_settings)'],
          ensures=[
              Clause('I1_function_of_spec',
                     '''match item_result::<T>(compression_encoding, max_message_size, item) {
